@@ -19,6 +19,7 @@ use wirm::ir::types::Location;
 use wirm::iterator::component_iterator::ComponentIterator;
 use wirm::iterator::iterator_trait::{IteratingInstrumenter, Iterator as WIter};
 use wirm::iterator::module_iterator::ModuleIterator;
+use wirm::opcode::InjectAt;
 use wirm::opcode::Inject;
 use wirm::{Component, Module};
 
@@ -304,7 +305,7 @@ fn case25(seed: u64, idx: u64) -> Case {
 }
 
 // injects `before: i32.const c; drop` at every target the iterator reaches
-fn inject_walk<'a, T: WIter + IteratingInstrumenter<'a> + Inject<'a>>(it: &mut T, targets: &[(u32, u32, usize)], m_override: Option<u32>) {
+fn inject_walk<'a, T: WIter + IteratingInstrumenter<'a> + Inject<'a> + InjectAt<'a>>(it: &mut T, targets: &[(u32, u32, usize)], m_override: Option<u32>) {
     let mut guard = 0;
     loop {
         guard += 1;
@@ -312,9 +313,17 @@ fn inject_walk<'a, T: WIter + IteratingInstrumenter<'a> + Inject<'a>>(it: &mut T
         let (m, f, i) = loc3(it.curr_loc().0);
         let m = m_override.unwrap_or(m);
         if let Some(p) = targets.iter().position(|t| *t == (m, f, i)) {
-            it.before();
-            it.inject(Operator::I32Const { value: 777000 + p as i32 });
-            it.inject(Operator::Drop);
+            // the way the probe is injected varies with the target (the same calls are made through both kinds of iterator)
+            let c = Operator::I32Const { value: 777000 + p as i32 };
+            match p % 6 {
+                0 => { it.before(); it.inject(c); it.inject(Operator::Drop); }
+                1 => { it.after(); it.inject(c); it.inject(Operator::Drop); }
+                2 => { it.func_entry(); it.inject(c); it.inject(Operator::Drop); }
+                3 => { it.func_exit(); it.inject(c); it.inject(Operator::Drop); }
+                4 => { it.inject_at(i, wirm::ir::types::InstrumentationMode::Before, c); it.inject_at(i, wirm::ir::types::InstrumentationMode::Before, Operator::Drop); }
+                // an explicit-location injection while a function-level mode is active on the function
+                _ => { it.func_entry(); it.inject(c); it.inject(Operator::Drop); it.inject_at(i, wirm::ir::types::InstrumentationMode::Before, Operator::Nop); }
+            }
         }
         if it.next().is_none() { break; }
     }
